@@ -16,6 +16,9 @@
 //	   allowed user of exactly the generation that was reached.
 //	D. forced hand-over (forced.go): an admitted NAT-hole request is parked at the controller's hook between admission
 //	   and hand-over while the name changes hands (other owner, user, key, allow-list): the later owner must not get it.
+//	E. long-lived streams (long.go): an admitted stcp stream through real frpc visitor and owner is verified, left idle
+//	   for longer than the visitor's 10 s handshake limit, and verified again (also with a backend that stalls until
+//	   the pipeline is full), tcpMux on and off.
 //	C. real clients (real.go): real frpc owner + real frpc visitors (stcp and sudp) for the 16 combinations of
 //	   visitor / proxy encryption and compression (stream / datagram monitor), and real visitors with a wrong
 //	   key or a user outside the allow-list whose backends must never be contacted.
@@ -128,10 +131,16 @@ func main() {
 	total := nMsg + nOrder + nReal
 	// the forced hand-over cases wait for the controller's own 10 s time-out: they run beside the other cases
 	var fwg sync.WaitGroup
-	fwg.Add(1)
+	fwg.Add(2)
 	go func() {
 		defer fwg.Done()
 		run.ParallelRange(total, nForced, 6, forcedCase)
+	}()
+	// long-lived streams sleep for 12 s each: they run beside everything else too
+	nLong := longCaseCount()
+	go func() {
+		defer fwg.Done()
+		run.ParallelRange(total+nForced, nLong, 12, func(c *h.Case) { longCase(c, c.Idx-total-nForced) })
 	}()
 	run.ParallelRange(0, total, 12, func(c *h.Case) {
 		switch {
@@ -144,7 +153,7 @@ func main() {
 		}
 	})
 	fwg.Wait()
-	if run.OnlyCase < 0 || (run.OnlyCase >= nMsg+nOrder && run.OnlyCase < total) {
+	if run.OnlyCase < 0 || run.OnlyCase >= nMsg+nOrder {
 		realFinal()
 	}
 	finalLedger()
